@@ -106,6 +106,15 @@ def events_of(o, model=False):
     return [x for x in o.get("events") or [] if not x.get("err") and not (model and (x["kind"] == "usersig" or x["op"] == "relabel-away"))]
 
 
+def ev_bad(x):
+    """Refs.Cases.ev_ok in python, for the report: which clause an event violates"""
+    if x["stale"]:
+        return "stale-after-event"
+    if x.get("dep") and not x["regen"] and not (OP[x["op"]] == "Update" and not x["relevant"]):
+        return "not-regenerated"
+    return None
+
+
 def deps_of(o):
     return [{"kind": r["kind"], "key": r["ns"] + "/" + r["name"]} for r in o["rev"] if r["dep"]]
 
@@ -119,8 +128,9 @@ def case_to_coq(c):
     revs = L("(Build_rev %s %s %s %s %s %s)" % (KIND[r["kind"]], S(r["ns"]), S(r["name"]), B(r["direct"]), L(S(v) for v in r["via"]),
                                                 B(r["req"])) for r in o["rev"])
     pf = L("(%s, %s, %s)" % (S(p["skel"]["ns"]), S(p["skel"]["name"]), B(p["found"])) for p in o["pols"])
-    evs = L("(Build_ev %s %s %s %s %s %s %s)" % ((KIND[x["kind"]],) + tuple(S(t) for t in x["key"].split("/", 1)) +
-                                                  (OP[x["op"]], B(x["relevant"]), B(x["regen"]), B(x["stale"]))) for x in events_of(o, model=True))
+    evs = L("(Build_ev %s %s %s %s %s %s %s %s)" % ((KIND[x["kind"]],) + tuple(S(t) for t in x["key"].split("/", 1)) +
+                                                     (OP[x["op"]], B(x["relevant"]), B(x["regen"]), B(x["stale"]), B(x.get("dep"))))
+            for x in events_of(o, model=True))
     return "res_case %d %s %s %s %s %s %s %s %s" % (c["eid"], env, cq_cluster(c), cq_resource(o["skel"]), L(cq_dep(d) for d in deps_of(o)),
                                                     L(cq_dep(d) for d in o["lookups"]), revs, pf, evs)
 
@@ -309,19 +319,28 @@ def judge(run, cases, res):
                 run.failing({"kind": "unreachable-dependency", "dep": d["kind"], "position": pos}, [c],
                             "case %d (%s): the extended resource %s depends on %s %s (position %s) but the reverse path does not map it back"
                             % (cid, c["class"], o["res_key"], d["kind"], d["key"], pos), theorem="Refs.Cases.spec_ok")
-        if not spec or any(x["stale"] for x in evs if x["kind"] == "usersig" or x["op"] == "relabel-away"):
+        if not spec or any(ev_bad(x) for x in evs if x["kind"] == "usersig" or x["op"] == "relabel-away"):
             seen = set()
             for x in evs:                            # Refs.Cases.ev_spec_ok (APUserSig events: the same observable, judged here)
-                if not x["stale"]:
+                bad = ev_bad(x)
+                if not bad:
                     continue
                 pos = positions(o["skel"], x["kind"], x["key"])
-                sig = {"kind": "stale-after-event", "dep": x["kind"], "op": x["op"], "position": pos}
+                sig = {"kind": bad, "dep": x["kind"], "op": x["op"], "position": pos}
+                if x.get("recreate"):
+                    sig["history"] = "policy-recreated"
+                if x["kind"] == "secret" and x["key"] in (c["env"].get("default_secret"), c["env"].get("wildcard_secret")):
+                    sig["special_secret"] = True
                 if json.dumps(sig, sort_keys=True) in seen:
                     continue
                 seen.add(json.dumps(sig, sort_keys=True))
-                run.failing(sig, [c], "case %d (%s): after the %s of %s %s (position %s) went through the real handler and lbc.sync, the "
-                            "configuration of %s is not what a regeneration from the stores produces (regenerated=%s)"
-                            % (cid, c["class"], x["op"], x["kind"], x["key"], pos, o["res_key"], x["regen"]), theorem="Refs.Cases.ev_spec_ok")
+                hist = (" [history: Policy %s stored unusable, a Secret synced, the Policy deleted and created again usable]" % x["recreate"]
+                        if x.get("recreate") else "")
+                what = ("the configuration of %s is not what a regeneration from the stores produces (regenerated=%s)" % (o["res_key"], x["regen"])
+                        if bad == "stale-after-event" else
+                        "%s, which was observed to depend on it, was not regenerated" % o["res_key"])
+                run.failing(sig, [c], "case %d (%s): after the %s of %s %s (position %s) went through the real handler and lbc.sync%s, %s"
+                            % (cid, c["class"], x["op"], x["kind"], x["key"], pos, hist, what), theorem="Refs.Cases.ev_spec_ok")
         if not agree:
             parts = [n for n, v in zip(("deps-in-model", "model-in-lookups", "reverse-lookups", "policy-lookups", "reaches-composition",
                                         "theorem-hypotheses", "events"), row[5:10] + row[12:14]) if not v]
